@@ -6,13 +6,14 @@
   A *source* `segs : List Str` is the list of strings returned by the successive `read()` calls, so
   "for every `segs` with the same `segs.flatten`" = every segmentation into reads AND every chunk size.
 
-  What is proved, for EVERY segmentation with non-empty reads:
-    * `char()` never raises, and the characters delivered are `modelOut none segs` (each chunk normalised on its own);
-    * they equal the newline-normalised text  IFF  the lone-CR defect does not fire (`C05_chars_iff`);
-      the defect is witnessed by `C05_chars_lone_cr_witness` (a read of exactly "\r" followed by a read starting "\n");
+  What is proved, for EVERY segmentation with non-empty reads (code after repair 2906ffb: a lone CR / lead
+  surrogate read reads on once before the carry-over test):
+    * `char()` never raises and the characters delivered are the newline-normalised text (`C05_chars`);
+      the formerly failing segmentation ("\r" then "\n…") is kept as a regression example
+      (`C05_chars_lone_cr_regression`);
     * lead surrogates withheld at the end of a read come out unchanged (`C05_surrogates`);
-    * without `unget`, `position()` after `k` characters is the reference position of offset `k` of the delivered
-      text (`C05_position`); `unget` at chunk offset 0 breaks this (`C05_position_unget_witness…`);
+    * without `unget`, `position()` after `k` characters is the reference position of offset `k` of the normalised
+      text (`C05_position`); `unget` at chunk offset 0 breaks this (`C05_position_unget_witness…`, still open);
     * `charsUntil` returns the longest accepted prefix of the remaining text (`C05_charsUntil`);
     * the number of `invalid-codepoint` errors is the number of invalid code points of the text (`C05_errors_count`).
 -/
@@ -43,100 +44,34 @@ theorem C05_normalise (d : Str) : normalise d = normNewlines d := normalise_eq_s
 
 /-! ### characters -/
 
-/-- for every segmentation: draining never raises and delivers `modelOut` -/
-theorem C05_chars_total (segs : List Str) (hne : ∀ s ∈ segs, s ≠ []) :
-    drainAll segs = .ok (modelOut none segs) := by
+/-- the remaining text of a fresh stream is the normalised text -/
+theorem modelOut_init (segs : List Str) (hne : ∀ s ∈ segs, s ≠ []) :
+    modelOut none segs = normNewlines segs.flatten := by
+  simpa [otoList] using modelOut_spec none segs hne (by simp)
+
+/-- **C05 (characters).**  For every segmentation of a text into non-empty reads (hence for every chunk size and
+every short-read pattern of the source) draining the stream never raises and delivers exactly the
+newline-normalised text: CR LF pairs split across reads are handled as if contiguous. -/
+theorem C05_chars (segs : List Str) (hne : ∀ s ∈ segs, s ≠ []) :
+    drainAll segs = .ok (normNewlines segs.flatten) := by
   have hi := inv_init segs hne
-  have hrem : remaining (init segs) = modelOut none segs := by simp [remaining, init]
-  have hle : (modelOut none segs).length ≤ segs.flatten.length := by
-    simpa [otoList] using modelOut_length_le none segs
+  have hrem : remaining (init segs) = normNewlines segs.flatten := by
+    simp [remaining, init, modelOut_init segs hne]
+  have hle := norm_length_le segs.flatten
   rw [← hrem]
   exact drain_remaining _ _ hi (by rw [hrem]; unfold drainFuel; omega)
 
-/-- **C05 (characters), exact form.**  For every segmentation into non-empty reads, the characters delivered are
-the newline-normalised text if and only if no read returns exactly "\r" while nothing is buffered and the next
-read starts with "\n". -/
-theorem C05_chars_iff (segs : List Str) (hne : ∀ s ∈ segs, s ≠ []) :
-    drainAll segs = .ok (normNewlines segs.flatten) ↔ loneCrCount none segs = 0 := by
-  rw [C05_chars_total segs hne]
-  obtain ⟨h1, h2⟩ := modelOut_length none segs hne (by simp)
-  simp only [otoList, List.nil_append] at h1 h2
-  constructor
-  · intro h
-    injection h with h
-    rw [h] at h1
-    omega
-  · intro h; rw [h2 h]
+/-- segmentation independence proper: two segmentations of the same text deliver the same characters -/
+theorem C05_chars_independent (segs segs2 : List Str) (h1 : ∀ s ∈ segs, s ≠ []) (h2 : ∀ s ∈ segs2, s ≠ [])
+    (he : segs.flatten = segs2.flatten) : drainAll segs = drainAll segs2 := by
+  rw [C05_chars segs h1, C05_chars segs2 h2, he]
 
-/-- no read is exactly "\r" directly followed by a read that starts with "\n" -/
-def NoLoneCrThenLf : List Str → Prop
-  | [] => True
-  | [_] => True
-  | s :: t :: rest => ¬ (s = [13] ∧ t.head? = some 10) ∧ NoLoneCrThenLf (t :: rest)
-
-instance decNoLoneCrThenLf : (l : List Str) → Decidable (NoLoneCrThenLf l)
-  | [] => isTrue trivial
-  | [_] => isTrue trivial
-  | s :: t :: rest =>
-    match decNoLoneCrThenLf (t :: rest) with
-    | isTrue h => if h2 : s = [13] ∧ t.head? = some 10 then isFalse (fun hh => hh.1 h2) else isTrue ⟨h2, h⟩
-    | isFalse h => isFalse (fun hh => h hh.2)
-
-theorem loneCr_zero_of_adjacent (buf : Option Nat) (segs : List Str) (hne : ∀ s ∈ segs, s ≠ [])
-    (h : NoLoneCrThenLf segs) : loneCrCount buf segs = 0 := by
-  induction segs generalizing buf with
-  | nil => rfl
-  | cons s rest ih =>
-    cases rest with
-    | nil => simp [loneCrCount]
-    | cons t rest' =>
-      have ht : t ≠ [] := hne t (by simp)
-      obtain ⟨x, r, e⟩ := List.exists_cons_of_ne_nil ht
-      have hrec := ih (carve (withBuf buf s)).2 (fun y hy => hne y (List.mem_cons_of_mem _ hy)) h.2
-      have hif : (if buf = none ∧ s = [13] ∧ (t :: rest').flatten.head? = some 10 then 1 else 0) = 0 := by
-        apply if_neg
-        intro ⟨_, e2, e3⟩
-        apply h.1
-        refine ⟨e2, ?_⟩
-        rw [e] at e3 ⊢
-        simpa using e3
-      rw [loneCrCount, hif, hrec]
-
-/-- **C05 (characters), partial.**  Missing for the full statement: the hypothesis `NoLoneCrThenLf` — it excludes
-exactly the segmentations of `C05_chars_lone_cr_witness` (html5lib defect: `len(data) > 1` guard in readChunk). -/
-theorem C05_chars_partial (segs : List Str) (hne : ∀ s ∈ segs, s ≠ []) (h : NoLoneCrThenLf segs) :
-    drainAll segs = .ok (normNewlines segs.flatten) :=
-  (C05_chars_iff segs hne).mpr (loneCr_zero_of_adjacent none segs hne h)
-
-theorem noLoneCr_of_len2 (segs : List Str) (h : ∀ s ∈ segs, s.length ≥ 2) : NoLoneCrThenLf segs := by
-  induction segs with
-  | nil => trivial
-  | cons s rest ih =>
-    cases rest with
-    | nil => trivial
-    | cons t rest' =>
-      refine ⟨?_, ih (fun y hy => h y (List.mem_cons_of_mem _ hy))⟩
-      intro ⟨e, _⟩
-      have := h s (by simp)
-      rw [e] at this
-      simp at this
-
-/-- in particular: every chunk size ≥ 2 (all reads but the last have the chunk size) with a last read of ≥ 2 … or any
-segmentation whose reads all have at least two characters -/
-theorem C05_chars_len2 (segs : List Str) (h : ∀ s ∈ segs, s.length ≥ 2) :
-    drainAll segs = .ok (normNewlines segs.flatten) :=
-  C05_chars_partial segs (fun s hs e => by have := h s hs; rw [e] at this; simp at this) (noLoneCr_of_len2 segs h)
-
-/-- the NEGATION of the full statement on a concrete witness: reads "\r", "\n" give two newlines -/
-theorem C05_chars_lone_cr_witness :
-    drainAll [[13], [10]] = .ok [10, 10] ∧ normNewlines ([[13], [10]] : List Str).flatten = [10] ∧
-    drainAll [[13], [10]] ≠ .ok (normNewlines ([[13], [10]] : List Str).flatten) := by
-  decide
-
-/-- the same text in one read, or with the CR not alone in its read, is handled correctly -/
-theorem C05_chars_cr_ok_witness :
-    drainAll [[13, 10]] = .ok [10] ∧ drainAll [[97, 13], [10]] = .ok [97, 10] ∧
-    drainAll [[97, 13], [13], [10]] = .ok [97, 10, 10] := by
+/-- regression example (the witness of the repaired defect `lone-cr-read-then-lf`): reads "\r", "\n" now give one
+newline, like the contiguous text; likewise with more text around and with a CR CR LF sequence -/
+theorem C05_chars_lone_cr_regression :
+    drainAll [[13], [10]] = .ok [10] ∧ drainAll [[13, 10]] = .ok [10] ∧
+    drainAll [[97], [13], [10], [98]] = .ok [97, 10, 98] ∧ drainAll [[13], [13], [10]] = .ok [10, 10] ∧
+    drainAll [[97, 13], [10]] = .ok [97, 10] ∧ drainAll [[13]] = .ok [10] ∧ drainAll [[13], [97]] = .ok [10, 97] := by
   decide
 
 theorem norm_id_of_no_cr (t : Str) (h : 13 ∉ t) : normNewlines t = t := by
@@ -146,69 +81,42 @@ theorem norm_id_of_no_cr (t : Str) (h : 13 ∉ t) : normNewlines t = t := by
     simp only [List.mem_cons, not_or] at h
     rw [norm_cons_ne c r (fun e => h.1 e.symm), ih h.2]
 
-theorem loneCr_zero_of_no_cr (buf : Option Nat) (segs : List Str) (h : ∀ s ∈ segs, s ≠ [13]) :
-    loneCrCount buf segs = 0 := by
-  induction segs generalizing buf with
-  | nil => rfl
-  | cons s rest ih =>
-    simp only [loneCrCount]
-    rw [ih _ (fun y hy => h y (List.mem_cons_of_mem _ hy))]
-    have := h s (by simp)
-    simp [this]
-
 /-- **C05 (surrogates).**  A text without CR comes out unchanged for every segmentation — in particular a lead
-surrogate (U+D800..U+DBFF) withheld at the end of a read is delivered, unchanged and in order, with the next read
-(or at end of file). -/
+surrogate (U+D800..U+DBFF) at the end of a read, or alone in a read, is delivered unchanged and in order. -/
 theorem C05_surrogates (segs : List Str) (hne : ∀ s ∈ segs, s ≠ []) (hcr : 13 ∉ segs.flatten) :
     drainAll segs = .ok segs.flatten := by
-  have h0 : loneCrCount none segs = 0 := by
-    apply loneCr_zero_of_no_cr
-    intro s hs e
-    apply hcr
-    simp only [List.mem_flatten]
-    exact ⟨s, hs, by rw [e]; simp⟩
-  have := (C05_chars_iff segs hne).mpr h0
-  rw [norm_id_of_no_cr _ hcr] at this
-  exact this
+  rw [C05_chars segs hne, norm_id_of_no_cr _ hcr]
 
-/-- witness: lead surrogate at the end of a read, trail surrogate in the next; lone lead surrogate at EOF -/
+/-- regression / witness: lead surrogate at the end of a read, alone in a read, at EOF -/
 theorem C05_surrogate_witness :
     drainAll [[97, 0xD83D], [0xDE00, 98]] = .ok [97, 0xD83D, 0xDE00, 98] ∧
-    drainAll [[97, 0xD800]] = .ok [97, 0xD800] ∧ drainAll [[0xD800], [0xDC00]] = .ok [0xD800, 0xDC00] := by
+    drainAll [[97, 0xD800]] = .ok [97, 0xD800] ∧ drainAll [[0xD800], [0xDC00]] = .ok [0xD800, 0xDC00] ∧
+    drainAll [[0xD800], [0xD800], [0xDC00, 13], [10]] = .ok [0xD800, 0xD800, 0xDC00, 10] := by
   decide
 
 /-! ### positions -/
 
 /-- **C05 (position).**  For every segmentation: after `k` calls of `char()` (no `unget`), the characters returned
-are the first `k` delivered characters and `position()` is the reference (line, column) of that offset in the
-delivered text (`out`; by `C05_chars_iff` it is the normalised text unless the lone-CR defect fires). -/
+are the first `k` characters of the normalised text and `position()` is the reference (line, column) of that offset
+in the normalised text. -/
 theorem C05_position (segs : List Str) (hne : ∀ s ∈ segs, s ≠ []) (k : Nat) :
-    ∃ cs s', charN k (init segs) = .ok (cs, s') ∧ cs = (modelOut none segs).take k ∧
-      position s' = positionOf (modelOut none segs) cs.length := by
+    ∃ cs s', charN k (init segs) = .ok (cs, s') ∧ cs = (normNewlines segs.flatten).take k ∧
+      position s' = positionOf (normNewlines segs.flatten) cs.length := by
   have hi := inv_init segs hne
   have hp : PInv (init segs) [] := ⟨rfl, rfl⟩
   obtain ⟨cs, s', pre', h1, h2, h3, h4, h5, _⟩ := charN_spec k (init segs) [] hi hp
-  have hrem : remaining (init segs) = modelOut none segs := by simp [remaining, init]
+  have hrem : remaining (init segs) = normNewlines segs.flatten := by
+    simp [remaining, init, modelOut_init segs hne]
   rw [hrem] at h2
   refine ⟨cs, s', h1, h2, ?_⟩
   have hpos := positionAt_spec s' pre' h4 s'.chunkOffset (by have := h3.size; have := h3.off; omega)
   simp only [init, List.take_nil, List.append_nil, List.nil_append] at h5
   rw [h5] at hpos
   rw [positionOf_eq]
-  have : (modelOut none segs).take cs.length = cs := by
+  have : (normNewlines segs.flatten).take cs.length = cs := by
     rw [h2]; simp [List.take_take]
   rw [this]
   simp [position, hpos]
-
-/-- corollary in terms of the normalised text, under the hypothesis of `C05_chars_partial` -/
-theorem C05_position_norm_partial (segs : List Str) (hne : ∀ s ∈ segs, s ≠ []) (h : NoLoneCrThenLf segs) (k : Nat) :
-    ∃ cs s', charN k (init segs) = .ok (cs, s') ∧ cs = (normNewlines segs.flatten).take k ∧
-      position s' = positionOf (normNewlines segs.flatten) cs.length := by
-  have e : modelOut none segs = normNewlines segs.flatten := by
-    have := (modelOut_length none segs hne (by simp)).2 (loneCr_zero_of_adjacent none segs hne h)
-    simpa [otoList] using this
-  rw [← e]
-  exact C05_position segs hne k
 
 def c : Call := .c
 def u : Call := .u
@@ -255,12 +163,15 @@ theorem C05_charsUntil_state (s : St) (hi : Inv s) (set : Str) (opp : Bool)
     rw [e1, longestPrefix_eq_takeWhile]; simp
   · rw [e3, longestPrefix_eq_takeWhile, drop_takeWhile_length]
 
-/-- at the start of the stream: independent of the segmentation (the remaining text is `modelOut none segs`) -/
+/-- at the start of the stream: the longest accepted prefix of the normalised text, for every segmentation -/
 theorem C05_charsUntil (segs : List Str) (hne : ∀ s ∈ segs, s ≠ []) (set : Str) (opp : Bool)
     (hset : set ≠ []) (hascii : ∀ x ∈ set, x < 128) :
-    ∃ s', charsUntil (init segs) set opp = .ok (longestPrefix (classAccepts set opp) (modelOut none segs), s') ∧
-      remaining s' = (modelOut none segs).drop (longestPrefix (classAccepts set opp) (modelOut none segs)).length := by
-  have hrem : remaining (init segs) = modelOut none segs := by simp [remaining, init]
+    ∃ s', charsUntil (init segs) set opp
+        = .ok (longestPrefix (classAccepts set opp) (normNewlines segs.flatten), s') ∧
+      remaining s' = (normNewlines segs.flatten).drop
+        (longestPrefix (classAccepts set opp) (normNewlines segs.flatten)).length := by
+  have hrem : remaining (init segs) = normNewlines segs.flatten := by
+    simp [remaining, init, modelOut_init segs hne]
   obtain ⟨s', h1, _, h3⟩ := C05_charsUntil_state (init segs) (inv_init segs hne) set opp hset hascii
   rw [hrem] at h1 h3
   exact ⟨s', h1, h3⟩
@@ -289,7 +200,7 @@ theorem C05_errors_count (segs : List Str) (hne : ∀ s ∈ segs, s ≠ []) :
   have hi := inv_init segs hne
   have hrem : remaining (init segs) = modelOut none segs := by simp [remaining, init]
   have hle : (modelOut none segs).length ≤ segs.flatten.length := by
-    simpa [otoList] using modelOut_length_le none segs
+    simpa [otoList] using modelOut_length_le none segs hne (by simp)
   obtain ⟨s', h1, h2⟩ := drainState_errors (drainFuel segs) (init segs) hi (by rw [hrem]; unfold drainFuel; omega)
   refine ⟨s', h1, ?_⟩
   rw [h2, ← countInvalid_spec]
@@ -303,9 +214,7 @@ theorem C05_error_time_witness :
     ((charN 3 (init [[97], [98], [99], [1]])).map (·.2.errors)) = .ok 0 := by
   decide
 
-/-! non-vacuity of the hypotheses -/
-example : NoLoneCrThenLf [[97, 13], [10, 98], [13], [99]] := by decide
-example : ¬ NoLoneCrThenLf [[13], [10]] := by decide
-example : loneCrCount none [[97, 13], [13], [10]] = 0 ∧ ¬ NoLoneCrThenLf [[97, 13], [13], [10]] := by decide
+/-! non-vacuity: the theorems apply to segmentations with one-character reads -/
+example : ∀ s ∈ ([[13], [10], [0xD800], [97, 98]] : List Str), s ≠ [] := by decide
 
 end H5.Props.C05
